@@ -50,6 +50,11 @@ Theorem C19_translated_predicate_is_the_specification : forall fo idx t,
   run filter_prog_c19 {| e_filter := fo; e_indexed := idx; e_tx := t |} =
   Return (spec {| e_filter := fo; e_indexed := idx; e_tx := t |}).
 Proof. exact filter_prog_is_spec. Qed.
+(* ... and txMentionsAccount, translated the same way (the lists it searches, in order), searches exactly the lists of
+   the specification's [mentions]: the static keys and BOTH lists of addresses loaded from lookup tables *)
+Theorem C19_translated_mention_test_is_the_specification : forall x slot pos vote failed id a,
+  run_mentions mention_sources_c19 x a = mentions (tx_of x slot pos vote failed id) a.
+Proof. exact mention_sources_are_spec. Qed.
 Theorem C19_predicate_guards_both_send_sites : filter_send_sites_c19 = 2.
 Proof. exact filter_send_sites. Qed.
 
@@ -90,6 +95,7 @@ Print Assumptions C19_blocks.
 Print Assumptions C19_blocks_ascending_in_range.
 Print Assumptions C19_index_path_agrees_with_scan.
 Print Assumptions C19_translated_predicate_is_the_specification.
+Print Assumptions C19_translated_mention_test_is_the_specification.
 Print Assumptions C19_predicate_guards_both_send_sites.
 Print Assumptions C19_flush_by_held_slots_is_flush_by_walk.
 Print Assumptions C19_flush_visits_at_most_the_buffer.
